@@ -162,6 +162,69 @@ def run_note_pair(case):
     S.outcome((sh1, up1, mid[0], mid[1] - octave))
 
 
+NOTE_OPS = ([["tr", sh, up] for sh in SH_BFS for up in (True, False)] +
+            [["oct", 1], ["oct", -1], ["chg", 2], ["chg", -3], ["chg", 0], ["setoct", 2], ["set_same", 6], ["aug"], ["dim"]])
+NOTE_STARTS = [["C", 4], ["D", 0], ["B#", 3], ["Cb", 1]]
+
+
+def run_note_history(case):
+    """case = [name, octave, [op, op, ...]]: operations on one Note object in turn; every step is judged from the state
+    the real note was in just before it (the spelling the library chose is adopted, the pitch arithmetic is not)."""
+    S = engine.S
+    name, octave, ops = case
+    n = Note(name, octave, velocity=80, channel=2)
+    done = []
+    for op in ops:
+        before = (n.name, n.octave)
+        if not P.is_name(before[0]) or len(before[0]) - 1 > MAX_ACC:
+            S.count("note_histories_cut_short_too_many_accidentals")
+            break
+        num = R.pitch_number(before[0], before[1])
+        kind = op[0]
+        done.append(op)
+        site = "Note(%r, %d) after %r" % (name, octave, done)
+        if kind == "tr":
+            n.transpose(op[1], op[2])
+            letter, want = R.transpose_model(before[0][0], num, op[1], op[2])
+            if not judge_note(S, site, n, letter, want):
+                return
+        elif kind in ("oct", "chg"):
+            d = op[1]
+            if kind == "oct":
+                (n.octave_up if d > 0 else n.octave_down)()
+            else:
+                n.change_octave(d)
+            if n.name != before[0]:
+                S.problem(site + " name", before[0], n.name)
+                return
+            if before[1] + d >= 0:
+                if n.octave != before[1] + d:
+                    S.problem(site + " octave", before[1] + d, n.octave, detail={"before": list(before)})
+                    return
+            elif not isinstance(n.octave, int) or n.octave < 0:
+                S.problem(site + " octave", "an octave >= 0", n.octave, detail={"before": list(before)})
+                return
+        elif kind == "setoct":
+            n.octave = op[1]
+        elif kind == "set_same":
+            n.set_note(n.name, op[1])
+            if (n.name, n.octave) != (before[0], op[1]):
+                S.problem(site, [before[0], op[1]], [n.name, n.octave])
+                return
+        elif kind in ("aug", "dim"):
+            (n.augment if kind == "aug" else n.diminish)()
+            if not judge_note(S, site, n, before[0][0], num + (1 if kind == "aug" else -1)):
+                return
+        else:
+            raise engine.HarnessError("unknown note op %r" % (op,))
+        S.trans(1)
+        if (n.velocity, n.channel) != (80, 2):
+            S.problem(site + " velocity/channel", [80, 2], [n.velocity, n.channel])
+            return
+    S.count("note_histories")
+    S.outcome((name, octave, n.name, n.octave))
+
+
 def run_accidental(case):
     """Note.augment / Note.diminish: same letter, one semitone, octave label untouched; augment then
     diminish gives the name back."""
@@ -268,6 +331,11 @@ ZOO = [
     # 10: a tuned track (standard guitar) filled by from_chords: chords come out as fingerings that use open strings
     [{"key": "C", "meter": [4, 4], "entries": [], "from_chords": ["E", "A", "Em", "E"], "tuning": ["Guitar", "Standard tuning"]},
      {"key": "C", "meter": [4, 4], "entries": []}, {"key": "C", "meter": [4, 4], "entries": []}, {"key": "C", "meter": [4, 4], "entries": []}],
+    # 12: an empty bar between two bars that hold notes (a silent bar), and one at the very start
+    [{"key": "C", "meter": [4, 4], "entries": []},
+     {"key": "C", "meter": [4, 4], "entries": [_e("2", [["C", 4], ["E", 4]], "nc"), _e("2", [["G", 4]], "note")]},
+     {"key": "C", "meter": [4, 4], "entries": []},
+     {"key": "C", "meter": [4, 4], "entries": [_e("1", [["B", 3], ["D", 4]], "nc")]}],
     # 11: containers whose notes were set in place: a doubled unison, enharmonic pairs, notes not in pitch order
     [{"key": "C", "meter": [4, 4], "entries": [_e("4", [["C##", 4], ["D", 4], ["F", 4]], "set"), _e("4", [["E", 4], ["E", 4]], "set"),
                                                 _e("4", [["A", 4], ["E", 4], ["Fb", 4]], "set"), _e("4", [["B#", 3], ["C", 4]], "set")]}],
@@ -689,6 +757,7 @@ CLAUSES = {
     "accidental": run_accidental,
     "octave": run_octave,
     "note_pair": run_note_pair,
+    "note_history": run_note_history,
     "lift": run_lift,
     "history": run_history,
 }
@@ -708,6 +777,12 @@ def explore(ctx):
         po = ctx.pick([0, 1, 4], [0, 1, 2, 4, 9])
         ctx.bound("note_pair", {"names": len(pn), "octaves": po, "first and second step": "31 shorthands x up/down each"})
         ctx.product("note_pair", pn, lambda nm: ([nm, o, sh, up] for o in po for sh in SH_ALL for up in (True, False)))
+    if ctx.want("note_history"):
+        import itertools as _it
+        nd = ctx.pick(3, 4)
+        ctx.bound("note_history", {"operations": NOTE_OPS, "starts": NOTE_STARTS, "length": nd})
+        ctx.product("note_history", [(st, i) for st in NOTE_STARTS for i in range(len(NOTE_OPS))],
+                    lambda sh: ([sh[0][0], sh[0][1], [NOTE_OPS[sh[1]]] + [list(o) for o in rest]] for k in range(0, nd) for rest in _it.product(NOTE_OPS, repeat=k)))
     if ctx.want("accidental"):
         ctx.serial("accidental", [[nm, o] for nm in names for o in octaves])
     if ctx.want("octave"):
@@ -722,7 +797,7 @@ def explore(ctx):
         depth = ctx.pick(3, 4)
         aset = ctx.pick("narrow", "narrow")
         # quick: the chord-only and the tuplet-value track (many notes, nothing structurally new) go one level less deep
-        depths = {i: (depth - 1 if (ctx.quick and i in (1, 3, 6, 7, 8, 9, 10, 11)) else depth) for i in range(len(ZOO))}
+        depths = {i: (depth - 1 if (ctx.quick and i in (1, 3, 6, 7, 8, 9, 10, 11, 12)) else depth) for i in range(len(ZOO))}
         ctx.bound("history_depth", {str(i): d for i, d in depths.items()})
         ctx.bound("history_actions", {"set": aset, "targets": {str(i): action_targets(i, aset) for i in range(len(ZOO))}, "ops": bfs_ops()})
         for i in range(len(ZOO)):
